@@ -70,7 +70,7 @@ fn composition_schedules(n: usize, gran: usize) -> Vec<Vec<P>> {
     for comp in compositions(n) {
         let m = comp.len();
         for mask in 0..(1u32 << m) {
-            out.push(comp.iter().enumerate().map(|(i, &k)| P { len: k * gran, kind: if mask >> i & 1 == 1 { Kind::B2b } else { Kind::InPlace }, single: k == 1 }).collect());
+            out.push(comp.iter().enumerate().map(|(i, &k)| P { len: k * gran, kind: if mask >> i & 1 == 1 { Kind::B2b } else { Kind::InPlace }, single: k == 1, closure: 0 }).collect());
         }
     }
     out
@@ -97,9 +97,9 @@ impl Machine for SizeMachine<'_> {
                 continue;
             }
             for kind in [Kind::InPlace, Kind::B2b] {
-                v.push(P { len: s * self.fe.gran, kind, single: false });
+                v.push(P { len: s * self.fe.gran, kind, single: false, closure: 0 });
                 if s == 1 {
-                    v.push(P { len: self.fe.gran, kind, single: true });
+                    v.push(P { len: self.fe.gran, kind, single: true, closure: 0 });
                 }
             }
         }
@@ -112,7 +112,7 @@ impl Machine for SizeMachine<'_> {
         let probe_n = ((self.data.len() - used) / g).min(2);
         let mut pieces = hist.to_vec();
         for _ in 0..probe_n {
-            pieces.push(P { len: g, kind: Kind::InPlace, single: true });
+            pieces.push(P { len: g, kind: Kind::InPlace, single: true, closure: 0 });
         }
         let total = used + probe_n * g;
         let got = (self.fe.run)(self.key, self.iv, &self.data[..total], &pieces, self.pre)?;
@@ -167,7 +167,7 @@ pub fn run(ctx: &Ctx) -> Outcome {
                     }
                     // the baseline: one block at a time through the single-block entry point must equal the reference
                     rep.case(|| {
-                        let pieces: Vec<P> = (0..ncomp.max(4)).map(|_| P { len: g, kind: Kind::InPlace, single: true }).collect();
+                        let pieces: Vec<P> = (0..ncomp.max(4)).map(|_| P { len: g, kind: Kind::InPlace, single: true, closure: 0 }).collect();
                         let got = (fe.run)(key, &iv, &data[..pieces.len() * g], &pieces, &pre)?;
                         check_against(&fe, &got, &want, &pieces, "one block at a time;")
                     });
@@ -181,6 +181,32 @@ pub fn run(ctx: &Ctx) -> Outcome {
                         }
                     }
                     rep.count("composition_schedules", (1..=ncomp).map(|n| 2 * 3u64.pow(n as u32 - 1)).sum());
+                    // (1b) the same compositions through a CALLER-SUPPLIED closure (`*_with_backend` / `process_with_backend`):
+                    // full groups via *_par_blocks, remainder block by block (mode 1) or via *_tail_blocks if non-empty (mode 2)
+                    let closure_ok = fe.name.ends_with("/blocks") || fe.name.ends_with("core-write_keystream");
+                    if closure_ok {
+                        for n in 1..=ncomp.max(ndev.min(2 * par + 3)) {
+                            let comps: Vec<Vec<usize>> = if n <= ncomp { compositions(n) } else { let mut v = vec![vec![n], vec![1, n - 1], vec![n - 1, 1]]; if n > par { v.push(vec![par, n - par]); } v };
+                            for comp in comps {
+                                for mode in [1u8, 2] {
+                                    let pieces: Vec<P> = comp.iter().map(|&k| pc(k * g, mode)).collect();
+                                    rep.case(|| {
+                                        let got = (fe.run)(key, &iv, &data[..n * g], &pieces, &pre)?;
+                                        check_against(&fe, &got, &want, &pieces, &format!("n={n} through a caller-supplied closure (mode {mode});"))
+                                    });
+                                    // a closure piece followed by ordinary calls and vice versa
+                                    if comp.len() >= 2 {
+                                        let mut mixed = pieces.clone();
+                                        mixed[0] = P { len: comp[0] * g, kind: Kind::InPlace, single: false, closure: 0 };
+                                        rep.case(|| {
+                                            let got = (fe.run)(key, &iv, &data[..n * g], &mixed, &pre)?;
+                                            check_against(&fe, &got, &want, &mixed, &format!("n={n} mixed ordinary / closure calls;"))
+                                        });
+                                    }
+                                }
+                            }
+                        }
+                    }
                     // (2) <= k split deviations from "one call on the whole input", all in place and all b2b
                     let mut cuts_sets: Vec<Vec<usize>> = vec![vec![]];
                     for a in 1..ndev {
@@ -199,7 +225,7 @@ pub fn run(ctx: &Ctx) -> Outcome {
                             let mut pieces = vec![];
                             let mut prev = 0;
                             for &c in cuts.iter().chain(std::iter::once(&ndev)) {
-                                pieces.push(P { len: (c - prev) * g, kind, single: false });
+                                pieces.push(P { len: (c - prev) * g, kind, single: false, closure: 0 });
                                 prev = c;
                             }
                             rep.case(|| {
@@ -211,7 +237,7 @@ pub fn run(ctx: &Ctx) -> Outcome {
                     rep.count("deviation_schedules", 2 * cuts_sets.len() as u64);
                     // (2c) very long single calls, also preceded / followed by a single block
                     for &n in &very_long {
-                        for pieces in [vec![P { len: n * g, kind: Kind::InPlace, single: false }], vec![P { len: g, kind: Kind::InPlace, single: true }, P { len: (n - 1) * g, kind: Kind::B2b, single: false }], vec![P { len: (n - 1) * g, kind: Kind::InPlace, single: false }, P { len: g, kind: Kind::B2b, single: true }]] {
+                        for pieces in [vec![P { len: n * g, kind: Kind::InPlace, single: false, closure: 0 }], vec![P { len: g, kind: Kind::InPlace, single: true, closure: 0 }, P { len: (n - 1) * g, kind: Kind::B2b, single: false, closure: 0 }], vec![P { len: (n - 1) * g, kind: Kind::InPlace, single: false, closure: 0 }, P { len: g, kind: Kind::B2b, single: true, closure: 0 }]] {
                             rep.case(|| {
                                 let got = (fe.run)(key, &iv, &data[..n * g], &pieces, &pre)?;
                                 check_against(&fe, &got, &want, &pieces, &format!("n={n} (very long call);"))
